@@ -53,6 +53,9 @@ func main() {
 	out := bufio.NewWriterSize(os.Stdout, 1<<20)
 	defer out.Flush()
 	switch os.Args[1] {
+	case "unicode":
+		out.Flush()
+		dumpUnicode()
 	case "areas":
 		names := []string{}
 		for n := range areas {
